@@ -31,6 +31,7 @@ def run_impl_many(cases: List[dict], chunk: int = 150) -> List[Any]:
 
 
 # ------------------------------------------------------------------ model / spec side
+FRAG02: Dict[str, bool] = {}  # the same for C02's fragment (ShowFrag.case_in_F02)
 FRAG: Dict[str, bool] = {}   # canonical case text -> the proved-fragment flag computed in Coq (ShowFrag.case_in_F01)
 
 
@@ -41,9 +42,10 @@ def case_key(c: dict) -> str:
 def coq_rows(prop: str, cases: List[dict], model_ok: bool) -> List[Tuple[Optional[list], list]]:
     """(model rows or None, spec rows) per case; also records the Coq-computed fragment flag in FRAG"""
     if model_ok:
-        vals = core.coq_values(prop, eqlgen.HEADER, [f"rows_and_frag ({eqlgen.g_case(c)})" for c in cases], chunk=120)
+        vals = core.coq_values(prop, eqlgen.HEADER, [f"rows_and_frags ({eqlgen.g_case(c)})" for c in cases], chunk=120)
         for c, v in zip(cases, vals):
             FRAG[case_key(c)] = bool(v[2])
+            FRAG02[case_key(c)] = bool(v[3])
         return [(v[0], v[1]) for v in vals]
     vals = core.coq_values(prop, eqlgen.SPEC_ONLY_HEADER, [f"spec_rows ({eqlgen.g_case(c)})" for c in cases], chunk=120)
     return [(None, v) for v in vals]
